@@ -44,7 +44,9 @@ def check_fitted(acc, det, n, p, scale, extra):
     acc.ev()
     case = {"fam": "fitted", "det": det, "n": n, "p": p, "scale": scale, "extra": extra}
     key = {"fam": "fitted", "det": det}
-    X = pd.DataFrame(np.zeros((n, p)))
+    # non-degenerate data: a fixed-scale threshold must not depend on the values (all-zero data would hide a
+    # threshold that is silently tuned on the data)
+    X = pd.DataFrame(((np.arange(n).reshape(-1, 1) * 7 + 3 * np.arange(p)) % 5).astype(float) + (np.arange(n).reshape(-1, 1) >= n // 2) * 6.0)
     logn = math.log(n)
     try:
         if det == "PELT":
@@ -67,9 +69,10 @@ def check_fitted(acc, det, n, p, scale, extra):
                 acc.violation("penalty-not-proportional", case, f"CAPA point_penalty_ {d.point_penalty_!r} at scale {scale}, {dd.point_penalty_!r} at {2*scale}", key)
         elif det == "MW":
             b = extra
-            d = cd.MovingWindow(bandwidth=b, threshold_scale=scale, level=0.01).fit(X)
-            got, want = d.threshold_, scale * cd.MovingWindow.get_default_threshold(n, p, b, 0.01)
-            d2 = cd.MovingWindow(bandwidth=b, threshold_scale=2 * scale, level=0.01).fit(X).threshold_
+            lvl = 0.01 if (n + p) % 2 else 0.2
+            d = cd.MovingWindow(bandwidth=b, threshold_scale=scale, level=lvl).fit(X)
+            got, want = d.threshold_, scale * cd.MovingWindow.get_default_threshold(n, p, b, lvl)
+            d2 = cd.MovingWindow(bandwidth=b, threshold_scale=2 * scale, level=lvl).fit(X).threshold_
         elif det == "CBS":
             M = extra
             d = ad.CircularBinarySegmentation(threshold_scale=scale, min_segment_length=1, max_interval_length=M).fit(X)
